@@ -27,7 +27,7 @@ NSHARD = 32
 
 def plan(tier, seed):
     q = tier == "quick"
-    return [{"name": "s%d" % i, "i": i, "l": 45 if q else 1800, "c": 3 if q else 90} for i in range(NSHARD)]
+    return [{"name": "s%d" % i, "i": i, "l": 45 if q else 7000, "c": 3 if q else 350} for i in range(NSHARD)]
 
 
 def token_ok(tok, x, p):
